@@ -59,6 +59,7 @@ const (
 	settleQuiet    = 250 * time.Millisecond
 	stableBadAfter = 4 * time.Second
 	echoBudget     = 10 * time.Second
+	stallLimitUS   = 300_000
 )
 
 // ---- programme -------------------------------------------------------------
@@ -221,6 +222,7 @@ type outcome struct {
 	HeldChecked  int           `json:"held_streams_checked"`
 	HeldEchoFail int           `json:"held_streams_echo_failed_conn_alive"`
 	WallMS       int64         `json:"wall_ms"`
+	MaxStallUS   int64         `json:"max_scheduler_stall_us"`
 	KnownHits    map[string]int `json:"known_finding_hits,omitempty"`
 	E1           []e1Hit        `json:"e1_evidence,omitempty"`
 }
@@ -234,6 +236,8 @@ type trial struct {
 	seen   map[*quic.Conn]int // connection ends observed as *chosen* by a node -> node
 
 	labels map[string]bool
+
+	maxStallUS atomic.Int64 // worst observed oversleep of the poller: scheduler starvation of this process
 }
 
 func (tr *trial) markChosen(n int, c *quic.Conn) {
@@ -301,7 +305,11 @@ func (tr *trial) poller(stop <-chan struct{}, done chan<- struct{}) {
 				tr.w.log(int(k[0]-'A'), "cache", "", l)
 			}
 		}
+		before := time.Now()
 		time.Sleep(150 * time.Microsecond)
+		if over := time.Since(before).Microseconds() - 150; over > tr.maxStallUS.Load() {
+			tr.maxStallUS.Store(over)
+		}
 	}
 }
 
@@ -571,6 +579,14 @@ func runTrial(p program, opt trialOpts) (out *outcome) {
 		}
 	}
 	violation := func(sig, msg string) {
+		// The implementation relies on two 1 s grace periods (quicConn.Close resets the
+		// negotiation stream 1 s after closing it; a rejecting acceptor closes after 1 s).
+		// If this process was starved for a large part of such a period, the two classes
+		// that a late delivery can produce are not evidence about the decision table.
+		if stall := tr.maxStallUS.Load(); stall >= stallLimitUS && (sig == "cached-connection-closed-after-rejected-negotiation" || sig == "one-sided-cached-connection") {
+			inconclusive("scheduler-stall:"+sig, fmt.Sprintf("max stall %d us; %s", stall, msg))
+			return
+		}
 		if out.Verdict != "violation" {
 			out.Verdict, out.Sig, out.Msg = "violation", sig, msg
 		}
@@ -612,7 +628,7 @@ func runTrial(p program, opt trialOpts) (out *outcome) {
 		for _, n := range tr.nodes {
 			n.stop()
 		}
-		waitTimeout(&w.wg, 3*time.Second)
+		waitTimeout(&w.wg, time.Second)
 		w.mu.Lock()
 		out.Events = append([]event{}, w.events...)
 		w.mu.Unlock()
@@ -622,6 +638,7 @@ func runTrial(p program, opt trialOpts) (out *outcome) {
 		}
 		sort.Strings(out.Labels)
 		out.WallMS = time.Since(t0).Milliseconds()
+		out.MaxStallUS = tr.maxStallUS.Load()
 	}()
 
 	for i := 0; i < p.Nodes; i++ {
@@ -899,7 +916,7 @@ func TestC41(t *testing.T) {
 			})
 		}
 		reproduced, attempts := false, 0
-		for batch := 0; batch < 10 && !reproduced; batch++ {
+		for batch := 0; batch < 6 && !reproduced; batch++ {
 			outs := make([]*outcome, 4)
 			var wg sync.WaitGroup
 			for i := range outs {
@@ -950,6 +967,7 @@ func TestC41(t *testing.T) {
 	}()
 
 	var firstViolation *outcome
+	var maxStall int64
 	statsOnly := os.Getenv("VERIF_C41_STATS") != "" // diagnostics: do not stop at the first violation, print a histogram
 	hist := map[string]int{}
 	defer func() {
@@ -966,8 +984,13 @@ func TestC41(t *testing.T) {
 		rec.Add("held_streams_checked", int64(o.HeldChecked))
 		rec.Add("held_streams_echo_failed_conn_alive", int64(o.HeldEchoFail))
 		rec.Add("trial_wall_ms_total", o.WallMS)
+		if o.MaxStallUS > maxStall {
+			maxStall = o.MaxStallUS
+			rec.Note("max_scheduler_stall_us", maxStall)
+		}
 		for sig := range o.KnownHits {
 			rec.Excluded(sig)
+			hist["known:"+sig]++
 		}
 		hist[o.Verdict+":"+o.Sig]++
 		if statsOnly {
@@ -976,6 +999,10 @@ func TestC41(t *testing.T) {
 					fmt.Printf("C41-DIALERR round=%d from=%d unknown=%v self=%v peer=%v dur=%dus :: %s\n", d.Round, d.Spec.From, d.Spec.Unknown, d.SelfCached, d.PeerCached, d.EndUS-d.StartUS, d.Err)
 				}
 			}
+		}
+		if os.Getenv("VERIF_C41_DUMP") == "all" {
+			b, _ := json.Marshal(o)
+			fmt.Printf("TRIAL-TRACE %s\n", b)
 		}
 		switch o.Verdict {
 		case "inconclusive":
